@@ -1654,7 +1654,17 @@ impl<'a, Outputter: HCValueOutputter> HCPrinter<'a, Outputter> {
                 if let Some(ref op) = op {
                     let op_is_prefix = op.is_prefix() && op.is_left();
 
+                    // the bracket must not touch a prefix operator printed just before it
+                    // (`\\+ (-)=a`, not `\\+(-)=a`, which reads as `\\+(-) = a`).
+                    let follows_prefix_op = printer
+                        .parent_of_first_op
+                        .map(|(parent_op, idx)| {
+                            idx == printer.last_item_idx && parent_op.is_left() && parent_op.is_prefix()
+                        })
+                        .unwrap_or(false);
+
                     if op_is_prefix
+                        || follows_prefix_op
                         || printer
                             .outputter
                             .ends_with(&format!(" {}", op.as_atom().as_str()))
